@@ -445,6 +445,27 @@ func (w *walker) value(v reflect.Value, path *pth, owner, fld string, ex, no *st
 				e2.WriteByte(',')
 			}
 			w.addAppendCell(v, path, name, me)
+		} else if v.Cap() > v.Len() {
+			// hidden elements that are references (records, options): which ones they are (by
+			// address), not what they hold -- shifting or dropping elements inside the backing
+			// array shows here
+			switch v.Type().Elem().Kind() {
+			case reflect.Interface, reflect.Ptr:
+				full := v.Slice(0, v.Cap())
+				e2.WriteString("|hidden:")
+				for i := v.Len(); i < v.Cap(); i++ {
+					el := full.Index(i)
+					if el.Kind() == reflect.Interface && !el.IsNil() {
+						el = el.Elem()
+					}
+					if el.Kind() == reflect.Ptr && !el.IsNil() {
+						e2.WriteString(el.Type().String() + "@" + strconv.FormatUint(uint64(el.Pointer()), 16))
+					} else {
+						e2.WriteString("nil")
+					}
+					e2.WriteByte(',')
+				}
+			}
 		}
 		w.parts[me].Exact = e2.String()
 		w.parts[me].Norm = n2.String()
@@ -454,7 +475,7 @@ func (w *walker) value(v reflect.Value, path *pth, owner, fld string, ex, no *st
 			no.WriteString("nil*")
 			return
 		}
-		ex.WriteString("*" + v.Type().Elem().String())
+		ex.WriteString("*" + v.Type().Elem().String() + "@" + strconv.FormatUint(uint64(v.Pointer()), 16)) // identity of the pointee: exact snapshot only
 		no.WriteString("*" + v.Type().Elem().String())
 		w.addCell(v, path, w.partName(part), part, true, 0)
 		sz := v.Type().Elem().Size()
